@@ -24,7 +24,7 @@ def _gen_line(rnd):
 
 @contract('backends.libwayland_debug_output.parse.message')
 def _(c):
-    c.prop('C01')
+    c.prop('C01', 'C04')      # C04: which connection a line belongs to is the tag this function decodes
     c.bounded('regular-expression decoder: outside the verifier. At call sites: decodes exactly the libwayland message lines; any other text raises RuntimeError carrying that text. '
               'On generated inputs (messages rendered as libwayland prints them in both dialects - every argument kind in every position, 0..20 arguments, 32-bit boundary values, '
               'both fixed renderings, queue / connection tags, strings with commas, brackets, parentheses, look-alike message text): the decoded message equals the rendered one; '
